@@ -220,6 +220,18 @@ def _run(V, work, tier):
         r, v = sres[i], c["v"]
         outs[v["out"]] = outs.get(v["out"], 0) + 1
         if r["out"] != v["out"]:
+            # a cancellation timed to arrive shortly after (or before) the end of the sleep is a genuine race on a loaded
+            # machine: the answer is judged by the MEASURED times, not by the nominal ones
+            import re as _re2
+            mm = _re2.match(r"pre=(\d+)", r.get("msg") or "")
+            pre = int(mm.group(1)) if mm else 0
+            cc, el = c["c"], r["elapsed_ms"]
+            if r["out"] == "context-cancelled" and v["out"] == "nil" and cc["cancelat"] > 0 and pre + el >= cc["cancelat"] - 2 and el <= cc["d"] + 1500:
+                V.notes.append("sleep of %d ms was still in progress when the cancellation of %d ms arrived (call entered %d ms after arming, lasted %d ms): scheduling, not a verdict" % (cc["d"], cc["cancelat"], pre, el))
+                continue
+            if r["out"] == "nil" and v["out"] == "context-cancelled" and cc["cancelat"] > 0 and 0 < cc["d"] - cc["cancelat"] <= 200 and el >= cc["d"] - 1:
+                V.notes.append("sleep of %d ms ended before the cancellation timed %d ms was delivered: scheduling, not a verdict" % (cc["d"], cc["cancelat"]))
+                continue
             V.add(None, "time:sleep %r answers %s, the admission rule gives %s" % (c["c"], r["out"], v["out"]), {"case": c["c"], "real": r, "spec": v})
             continue
         el = r["elapsed_ms"]
